@@ -45,15 +45,20 @@ RULE = ("one case = one HTTP exchange through the public APIs followed by a prob
         "compress, keep-alive, wire framing, receiver's framing view and close decision) and with the shared parser model run on "
         "the recorded wire bytes. non-trivial = the exchange put a request on the wire or was refused by the API; distinct by case.")
 TRUSTED_BASE = [
+    "header transport itself (serialise on one side, parse on the other) is abstracted in the model as the record RecvHdr "
+    "(Content-Length value, chunked flag, Connection token): C04 serialize_lines + the shared parser model, run here on the recorded "
+    "wire of sampled exchanges, cover it — there is no C02 theorem that parse(serialise(headers)) = headers",
+    "the receiver's chunked decoding is the reference RFC 9112 decoder in response_roundtrip_chunked_partial, not Aio.Http.chunkedLoop",
     "in-memory transport pair + segmenter (harness/common/c02pipe.py) stands in for the socket; flow control is always 'writable'",
     "virtual-time event loop (harness/common/vloop.py); executors run inline",
     "zlib not modelled: compressed length is an oracle column; compressed bodies are judged after real decompression",
     "yarl URL -> raw_path_qs, CIMultiDict ordering/lookup, http.cookies serialisation, multipart/urlencoded encoders are not modelled "
     "(their output is taken as 'what was sent')",
-    "header transport (serialise on one side, parse on the other) is covered by C04 serialize_lines + the shared parser model run "
-    "on the recorded wire, not by a C02 theorem",
 ]
 ASSUMPTIONS = [
+    "the direct oracle judges only API-admissible exchanges; inadmissible ones (user-supplied framing headers, invalid compress, "
+    "untruthful Content-Length) are generated with low probability and only compared with the model",
+    "CONNECT and protocol upgrades (101) are outside the generated grammar and excluded by hypothesis in the theorems",
     "API-admissible = the application does not lie about framing: a user Content-Length equals the bytes supplied; no user "
     "Transfer-Encoding on a request whose body aiohttp frames; handlers do not write a body to a response that must be empty",
     "Expect: 100-continue is only generated with HTTP/1.1 (the default expect handler answers only 1.1)",
@@ -503,7 +508,10 @@ def direct_oracle(ctx, case, obs):
     rq, rs = case["req"], case["resp"]
     cli, srv, st = obs.get("cli", {}), obs.get("srv", []), obs.get("state", {})
     V = lambda sig, detail: ctx.violation("C02/" + sig, case, detail)
-    if obs.get("client_refused") or not admissible(case):
+    if not admissible(case):
+        return
+    if obs.get("client_refused"):
+        V(f"request-refused/{reqclass(case)}", f"the client API refused an admissible request: {obs['client_refused']}")
         return
     method = rq["method"]
     main_seen = [s for s in srv if s["rel"] != "/__probe"]
@@ -796,10 +804,6 @@ def impl_req_canon(case, obs):
     return dict(cl=cl[0] if cl else "none", te=b01(te), conn=conn, ce=ce, expect=b01(expect), hs=hs, rest=rest, seen=seen)
 
 
-def wire_framing_of(rest_first_message, framing_hint):
-    return framing_hint
-
-
 def resp_line(case, obs, seen, prep):
     rs = case["resp"]
     st = obs["state"]
@@ -1088,7 +1092,10 @@ def compare_req(ctx, case, obs, mo, impl):
     # writer framing on the wire: decode the first request's body bytes under the model's framing
     wire = m["wire"]
     view = m["view"].split(",")[0]
-    ctx.hit("req-wire:" + wire + ("" if view == wire else "/view:" + view))
+    nn = lambda t: re.sub(r"len:\d+", "len:n", t)
+    ctx.hit("req-wire:" + nn(wire) + ("" if view == wire else "/view:" + nn(view)))
+    if m["cl"] != "none" and m["te"] == "1":
+        return  # both Content-Length and Transfer-Encoding (user supplied one): the server rejects the head
     if view != wire:
         return  # the model predicts a framing desync (judged by the oracle); nothing further is well defined
     exp = obs.get("req_expected_body") or b""
@@ -1141,7 +1148,8 @@ def compare_resp(ctx, case, obs, mo, impl):
     keys = ["cl", "te", "conn", "ce", "ctd", "wlen", "wch", "wz", "bz", "ka", "empty", "wire"]
     canon_m = "ok " + " ".join(f"{k}={m[k]}" for k in keys)
     ctx.compare(case, impl, canon_m, where)
-    ctx.hit("resp-wire:" + m["wire"], "resp-view:" + m["view"].split(",")[0])
+    nn = lambda t: re.sub(r"len:\d+", "len:n", t)
+    ctx.hit("resp-wire:" + nn(m["wire"]), "resp-view:" + nn(m["view"].split(",")[0]))
     # client's view: real parser's message.should_close -> pool decision
     rel = obs.get("release_log") or []
     cli = obs.get("cli", {})
